@@ -1826,6 +1826,13 @@ def c16_cli(ctx, res):
     for cmd in ("continue;reset;continue", "step;step;reset;continue", "step into 2;reset;step into 3;continue", "continue;reset;reset;step;continue", "reset;continue"):
         for via in ("stdin", "arg"):
             jobs.append(("fresh_cc.asm", cmd.replace(";", "\n") + "\n" if via == "stdin" else cmd, via))
+    # a hand-made call (`eval jsr`) from a pause: the subroutine returns to the instruction the debugger was
+    # paused on, none is skipped - here the skipped one would decide whether the loop ever ends
+    progs["eval_call.asm"] = "and r1 r1 #0\nadd r1 r1 #4\nlp add r1 r1 #-1\nadd r1 r1 #-1\nbrnp lp\nhalt\nf ret\n"
+    _write(os.path.join(d, "eval_call.asm"), progs["eval_call.asm"])
+    for cmd in ("step;step;eval jsr f;continue", "step into 2;eval jsr f;step;continue", "step;step;move r2 x3006;eval jsrr r2;continue", "break add lp;continue;eval jsr f;continue;eval jsr f;continue;continue"):
+        for via in ("stdin", "arg"):
+            jobs.append(("eval_call.asm", cmd.replace(";", "\n") + "\n" if via == "stdin" else cmd, via))
     # standard input that cannot be read at all (a directory): the script given with --command runs, then the
     # reader meets an error instead of an end - the session ends (giving up counts), it does not spin
     for pn in ("halts.asm", "puts_at_ffff.asm", "to_ffff.asm"):
@@ -1904,7 +1911,7 @@ def c16_cli(ctx, res):
     c16_input_traps(ctx, res, d)
     res.require(["l2:session_through_real_reader:stdin", "l2:session_through_real_reader:arg", "l2:script_without_final_newline",
                  "l2:session_terminated", "l2:input_trap_under_debugger:arg", "l2:input_trap_under_debugger:stdin", "l2:program:halts", "l2:program:runs_off", "l2:program:jumps_low", "l2:program:to_ffff",
-                 "l2:program:prints_esc", "l2:script_not_utf8", "l2:program:puts_at_ffff", "l2:program:fresh_cc", "l2:program:no_labels", "l2:session_through_real_reader:stdin-is-a-directory",
+                 "l2:program:prints_esc", "l2:script_not_utf8", "l2:program:puts_at_ffff", "l2:program:fresh_cc", "l2:program:no_labels", "l2:program:eval_call", "l2:session_through_real_reader:stdin-is-a-directory",
                  "l2:session_through_real_reader:arg-decorated", "l2:session_through_real_reader:stdin-decorated"], "L2")
 
 
@@ -1932,18 +1939,26 @@ def c16_input_traps(ctx, res, d):
     CPU time not moving over consecutive samples), never from the wall clock alone."""
     _write(os.path.join(d, "reads.asm"), "getc\nout\nin\nout\nhalt\n")
     _write(os.path.join(d, "reads_loop.asm"), "and r1 r1 #0\nadd r1 r1 #3\nlp getc\nout\nadd r1 r1 #-1\nbrp lp\nhalt\n")
+    # reads until a line end: when the input runs out first, the run ends there (an input trap at the end of input)
+    _write(os.path.join(d, "reads_line.asm"), "lp getc\nadd r1 r0 #-10\nbrnp lp\nhalt\n")
     jobs = [("reads.asm", "arg", "continue", b"ab"), ("reads.asm", "arg", "step;step;step;step;continue", b"ab"),
             ("reads.asm", "stdin", None, b"continue\nab"), ("reads.asm", "stdin", None, b"step\nastep\nstep\nbcontinue\n"),
             ("reads.asm", "arg", "eval getc;registers;continue", b"xab"), ("reads.asm", "arg", "step into 4;continue", b"ab\n"),
             ("reads_loop.asm", "arg", "continue", b"xyz"), ("reads_loop.asm", "arg", "break add lp;continue;continue;continue;continue", b"xyz"),
             ("reads_loop.asm", "stdin", None, b"continue\nxyz"), ("reads_loop.asm", "arg", "continue", b"x"),
-            ("reads.asm", "arg", "continue", b""), ("reads_loop.asm", "arg", "step into 100", b"xyz")]
+            ("reads.asm", "arg", "continue", b""), ("reads_loop.asm", "arg", "step into 100", b"xyz"),
+            ("reads_line.asm", "arg", "continue", b"abc"), ("reads_line.asm", "arg", "continue", b"abc\n"), ("reads_line.asm", "arg", "step into 2;continue", b""),
+            ("reads_line.asm", "stdin", None, b"continue\nno line end"), ("reads_line.asm", "arg", "quit", b"abc")]
 
     def one(job):
         pn, via, cmd, data = job
         args = [common.cli_bin(ctx), "debug", pn, "--minimal"] + (["--command", cmd] if cmd else [])
         env = dict(common.ENV, NO_COLOR="1", XDG_CACHE_HOME=ctx.scratch)
-        p = subprocess.Popen(args, stdin=subprocess.PIPE, stdout=subprocess.PIPE, stderr=subprocess.PIPE, cwd=d, env=env)
+        import resource
+
+        def cpu_limit():
+            resource.setrlimit(resource.RLIMIT_CPU, (10, 12))
+        p = subprocess.Popen(args, stdin=subprocess.PIPE, stdout=subprocess.PIPE, stderr=subprocess.PIPE, cwd=d, env=env, preexec_fn=cpu_limit)
         try:
             p.stdin.write(data)
             p.stdin.close()
@@ -1975,7 +1990,9 @@ def c16_input_traps(ctx, res, d):
         res.cls("l2:input_trap_under_debugger:" + via)
         detail = {"program": pn, "command": cmd, "stdin": repr(data), "exit": rc,
                   "stdout_tail": out.decode("utf-8", "replace"), "stderr_tail": err.decode("utf-8", "replace")}
-        if why:
+        if rc in (-24, -9):
+            res.violate("C16/cli/spins", "`lace debug` on a program that reads input used more than 10 s of CPU time (normal cost: milliseconds): the program itself ends when its input does", detail)
+        elif why:
             res.violate("C16/cli/blocked-for-good", "`lace debug` on a program that reads input never ends: %s, CPU time not moving (standard input at its end)" % why, detail)
         elif rc is None:
             k = "session with input traps exceeded the 120 s wall-clock watchdog (undecided)"
